@@ -80,6 +80,13 @@ def build(kind, value, opt):
         with open(p, 'w', newline='') as f:
             pycsv.writer(f).writerows(value)
         return gcsv.build_tree(p, options)
+    if kind == 'plist':
+        import plistlib
+        from graphtage import plist as gplist
+        p = os.path.join(tmpdir(), 'case.plist')
+        with open(p, 'wb') as f:
+            f.write(plistlib.dumps(value))
+        return gplist.build_tree(p, options)
     if kind == 'pyobj':
         from graphtage import pydiff
         return pydiff.build_tree(pyobj(value), options)
@@ -89,7 +96,7 @@ def build(kind, value, opt):
 def expected_plain(kind, value):
     """The plain value the tree stands for, computed from the case description only."""
     from mc.gen import Bag
-    if kind == 'json' or kind == 'string':
+    if kind == 'json' or kind == 'string' or kind == 'plist':
         return value
     if kind == 'pydict':
         return {k: v for k, v in value}
@@ -258,6 +265,14 @@ def fam_csv(tier):
                 yield {'kind': 'csv', 'a': a, 'b': b, 'opt': ['auto', lm]}
 
 
+def fam_plist(budget):
+    """Documents loaded from plist files: the root is wrapped in a PLISTNode whose edit is an EditCollection."""
+    ds = DocSpace((1, 'ab', True), ('a', 'b'), 3)
+    for a, b in ds.pairs(budget):
+        for opt in relevant_options(a, b):
+            yield {'kind': 'plist', 'a': a, 'b': b, 'opt': list(opt)}
+
+
 def fam_strings(alphabet, maxlen):
     ss = list(strings(alphabet, maxlen))
     for a in ss:
@@ -291,6 +306,7 @@ def families(tier, docs_budget=None):
         ('multisets_nested', fam_multisets((1, [1], [2]), 2 if q else 3)),
         ('xml', fam_xml(tier)),
         ('csv', fam_csv(tier)),
+        ('plist', fam_plist(4 if q else 5)),
         ('strings', fam_strings('ab', 3 if q else 4)),
         ('pyobj', fam_pyobj(tier)),
     ]
